@@ -40,7 +40,7 @@ def norm_gamma(g: dict) -> dict:
     return d
 
 
-def alphabet(gamma: dict, divider: bool = False):
+def alphabet(gamma: dict, divider: bool = False, nulls: bool = False):
     g = norm_gamma(gamma)
     groups = [0]
     if g["strategy"] in ("page_by", "subline+page_by"):
@@ -52,6 +52,8 @@ def alphabet(gamma: dict, divider: bool = False):
     evs = [(h, gg, 0) for gg in groups for h in g["heights"]]
     if divider:
         evs += [(1, gg, 1) for gg in groups if gg not in (0, "s")]
+    if nulls:  # d = 2: the new value at level g is null
+        evs += [(1, gg, 2) for gg in groups if gg not in (0, "s")]
     return evs
 
 
@@ -63,7 +65,7 @@ def keys_of(gamma: dict, hist):
     at 0 under a new outer group (same text under a new parent), otherwise it is fresh."""
     g = norm_gamma(gamma)
     L, rep, strat = g["L"], g["inner_repeat"], g["strategy"]
-    ordv, isdiv, fresh, sub = [0] * L, [False] * L, [0] * L, 0
+    ordv, isdiv, fresh, sub = [0] * L, [0] * L, [0] * L, 0  # isdiv: 0 value, 1 divider '-----', 2 null
     rows, subs = [], []
     for i, (h, gg, d) in enumerate(hist):
         if i > 0:
@@ -72,17 +74,17 @@ def keys_of(gamma: dict, hist):
                 for l in range(L):
                     fresh[l] += 1
                     ordv[l] = 0 if rep else fresh[l]
-                    isdiv[l] = False
+                    isdiv[l] = 0
             elif gg:
                 lv = gg - 1
                 fresh[lv] += 1
                 ordv[lv] = ordv[lv] + 1 if rep else fresh[lv]
-                isdiv[lv] = bool(d)
+                isdiv[lv] = int(d)
                 for l in range(lv + 1, L):
                     fresh[l] += 1
                     ordv[l] = 0 if rep else fresh[l]
-                    isdiv[l] = False
-        rows.append(tuple(-1 if isdiv[l] else ordv[l] for l in range(L)))
+                    isdiv[l] = 0
+        rows.append(tuple((-1 if isdiv[l] == 1 else None) if isdiv[l] else ordv[l] for l in range(L)))
         subs.append(sub)
     start = []
     for i in range(len(rows)):
@@ -264,7 +266,7 @@ def explore(gamma, case, visit, events=None, keep_doc=False):
       'bfs'      : breadth-first closure over canon() states to a fixpoint (caps: max_states, max_len)
       'list'     : the explicit histories in case['histories']
     Returns dict(observations, states=set of abstract states, trans=set of (s, e, broke, s2), capped)."""
-    events = [tuple(e) for e in (events or case.get("events") or alphabet(gamma, case.get("divider", False)))]
+    events = [tuple(e) for e in (events or case.get("events") or alphabet(gamma, case.get("divider", False), case.get("nulls", False)))]
     stats = {"observations": 0, "states": set(), "trans": set(), "capped": False, "max_len": 0}
 
     def step(hist, parent_obs, parent_state):
@@ -330,21 +332,21 @@ def explore(gamma, case, visit, events=None, keep_doc=False):
     return stats
 
 
-def split_cases(gamma, depth, bfs=True, divider=False, bfs_caps=(400, 40), split_at=6):
+def split_cases(gamma, depth, bfs=True, divider=False, bfs_caps=(400, 40), split_at=6, nulls=False):
     """Work units covering all histories of gamma up to `depth` (+ the BFS closure)."""
-    evs = alphabet(gamma, divider)
+    evs = alphabet(gamma, divider, nulls)
     firsts = first_events(gamma)
     cases = []
     if depth >= 4 and len(evs) >= split_at:
         for f in firsts:
-            cases.append({"gamma": gamma, "mode": "unmerged", "prefix": [list(f)], "depth": 0, "divider": divider})
+            cases.append({"gamma": gamma, "mode": "unmerged", "prefix": [list(f)], "depth": 0, "divider": divider, "nulls": nulls})
             for e in evs:
-                cases.append({"gamma": gamma, "mode": "unmerged", "prefix": [list(f), list(e)], "depth": depth - 2, "divider": divider})
+                cases.append({"gamma": gamma, "mode": "unmerged", "prefix": [list(f), list(e)], "depth": depth - 2, "divider": divider, "nulls": nulls})
     else:
         for f in firsts:
-            cases.append({"gamma": gamma, "mode": "unmerged", "prefix": [list(f)], "depth": depth - 1, "divider": divider})
+            cases.append({"gamma": gamma, "mode": "unmerged", "prefix": [list(f)], "depth": depth - 1, "divider": divider, "nulls": nulls})
     if bfs:
-        cases.append({"gamma": gamma, "mode": "bfs", "max_states": bfs_caps[0], "max_len": bfs_caps[1], "divider": divider})
+        cases.append({"gamma": gamma, "mode": "bfs", "max_states": bfs_caps[0], "max_len": bfs_caps[1], "divider": divider, "nulls": nulls})
     return cases
 
 
